@@ -45,6 +45,8 @@ class Walker:
         if st.pending is None:
             return
         var, l, sz, paid = st.pending
+        lets = getattr(self, 'lets', {})
+        paid = [lets.get(p_, p_) for p_ in paid]     # const size_t size_p = field.size/7;  ... write(.., size_p)
         ok = False
         if sz == 'ZERO':
             # no payload, or a payload whose length is the header's own (zero) size
@@ -68,6 +70,12 @@ class Walker:
                 self.stmt(c, st)
         elif k == 'DeclStmt':
             for d in n.get('inner', []):
+                if d.get('kind') == 'VarDecl' and 'init' in d and qtype(d).replace('const ', '').strip() in ('size_t', 'int', 'unsigned int', 'uint64_t', 'long', 'unsigned long'):
+                    init_ = [c for c in d.get('inner', []) if c.get('kind') not in ('FullComment',)]
+                    if init_ and '.size' in render(init_[-1]):
+                        if not hasattr(self, 'lets'):
+                            self.lets = {}
+                        self.lets[d['name']] = render(strip(init_[-1], casts=True))
                 if d.get('kind') == 'VarDecl' and qtype(d) == HDR:
                     init = [c for c in d.get('inner', []) if c.get('kind') not in ('FullComment',)]
                     if not init:
